@@ -35,7 +35,7 @@ Definition sd_rank (p : sd_pc) : nat :=
   end.
 
 Definition rn_rank (p : rn_pc) : nat :=
-  match p with RnLaunched => 3 | RnRunning => 2 | RnSending _ => 1 | _ => 0 end.
+  match p with RnLaunched => 4 | RnStored => 3 | RnRunning => 2 | RnSending _ => 1 | _ => 0 end.
 
 Definition rm_rank (c : config) (p : rm_pc) : nat :=
   match p with
@@ -351,7 +351,8 @@ Proof.
     + exfalso. apply Nat.ltb_ge in L. pose proof (launch_idx_lt c s Hn Hre i Em). lia.
   - right. destruct (polling (aux s)) eqn:Ep.
     + enabled (LPoll i true). unfold step. cbn [step0]. rewrite Em, Nat.eqb_refl. discriminate.
-    + enabled (LGateCtx i). unfold step. cbn [step0]. rewrite Em, Nat.eqb_refl, Hc, Ep. cbn. discriminate.
+    + enabled (LGateCtx i). unfold step. cbn [step0]. rewrite Em, Nat.eqb_refl, Hc, Ep. cbn.
+      destruct (errq s); discriminate.
   - right. enabled (LGateDecide i). unfold step. cbn [step0]. rewrite Em, Nat.eqb_refl.
     destruct (errq s); discriminate.
   - right. enabled LReapCtx. unfold step. cbn [step0]. rewrite Em, Hc. discriminate.
